@@ -143,6 +143,14 @@ func loadImpl(a map[string]any) (res any) {
 		out["wrapper"] = "legacy"
 	}
 	out["canon"] = canonOf(md)
+	// the bytes the LIBRARY says are signed (Metablock wrapper): GetSignableRepresentation itself,
+	// not a canonicalisation made by this harness (seeded change c11-signable-strips-private-halves)
+	out["signable"] = nil
+	if mb, ok := md.(*intoto.Metablock); ok {
+		if b, err := mb.GetSignableRepresentation(); err == nil {
+			out["signable"] = string(b)
+		}
+	}
 	out["sigs"] = sigsOf(md)
 	if mb, ok := md.(*intoto.Metablock); ok {
 		func() {
